@@ -730,10 +730,15 @@ impl<'d> serde::ser::Serializer for ValueSerializer<'d> {
 
     fn serialize_struct(
         self,
-        _name: &'static str,
+        name: &'static str,
         len: usize,
     ) -> Result<Self::SerializeStruct, Self::Error> {
-        self.serialize_map(Some(len))
+        // let the inner serializer see the name: it recognises `toml_datetime::Datetime`
+        let ser = toml_edit::ser::ValueSerializer::new()
+            .serialize_struct(name, len)
+            .map_err(Error::wrap)?;
+        let ser = SerializeValueTable::new(self, ser);
+        Ok(ser)
     }
 
     fn serialize_struct_variant(
